@@ -57,14 +57,12 @@ func execute(c *drv.Ctx, d M) bool {
 
 type render struct {
 	mode    string
-	tkind   string
-	ctxAt   string
+	tm      timing
 	fileLen []int
 	srcOff  []int
 	chunk   int
 	unit    int
 	rchunk  int
-	nearMs  int
 	srvOff  int
 	ctype   bool
 	twoName bool
@@ -105,25 +103,94 @@ func srvOffBytes(at string, k, unit, variant int, body []byte) int {
 }
 
 func descriptor(scr M, r render) M {
-	return M{"kind": "call", "script": scr, "mode": r.mode, "tkind": r.tkind, "ctx_at": r.ctxAt,
+	return M{"kind": "call", "script": scr, "mode": r.mode, "tsrc": r.tm.tsrc, "ctx_at": r.tm.ctxAt, "ctx_dl": r.tm.ctxDl,
+		"timeout_ms": r.tm.timeoutMs, "ctx_ms": r.tm.ctxMs,
 		"file_len": r.fileLen, "src_off": r.srcOff, "src_chunk": r.chunk, "resp_unit": r.unit,
-		"resp_chunk": r.rchunk, "near_ms": r.nearMs, "far_ms": 10000, "settle_ms": 3000,
+		"resp_chunk": r.rchunk, "settle_ms": 3000,
 		"srv_off": r.srvOff, "ctype": r.ctype, "two_names": r.twoName}
 }
 
-var allTkinds = []string{"op", "ctx", "both_op", "both_ctx"}
+// timing is one point of the deadline-selection lattice: where the request timeout comes from, where the caller's
+// context is supplied, and how its deadline relates to the request timeout.
+type timing struct {
+	tsrc      string // explicit | default | zero
+	ctxAt     string // none | op | rt
+	ctxDl     string // none | shorter | longer (than the request timeout; "shorter" = the only deadline when tsrc = zero)
+	timeoutMs int
+	ctxMs     int
+}
 
-func tkindsFor(s script, idx int, all bool) []string {
-	if s.AuthWait { // the auth writer waits for the caller's context: needs a context deadline as the effective one
-		if all {
-			return []string{"ctx", "both_ctx"}
+const farMs = 10000
+
+type tcombo struct{ tsrc, ctxAt, ctxDl string }
+
+// timingLattice lists the admissible points for a script.
+func timingLattice(s script) []tcombo {
+	var out []tcombo
+	ctxs := []string{"none", "op", "rt"}
+	if s.Cancel != "none" || s.AuthWait {
+		ctxs = []string{"op", "rt"} // the harness cancels / waits on the caller's context
+	}
+	tsrcs := []string{"explicit", "default", "zero"}
+	if !s.needsDeadline() {
+		tsrcs = []string{"explicit", "zero"} // the 600 ms default must not fire spuriously on a loaded machine
+	}
+	for _, ts := range tsrcs {
+		for _, at := range ctxs {
+			for _, dl := range []string{"none", "shorter", "longer"} {
+				switch {
+				case at == "none" && dl != "none":
+				case ts == "zero" && dl == "longer":
+				case ts == "zero" && dl == "none" && s.needsDeadline(): // no deadline at all
+				case s.AuthWait && dl != "shorter": // the auth writer waits for the context's deadline
+				default:
+					out = append(out, tcombo{ts, at, dl})
+				}
+			}
 		}
-		return []string{[]string{"ctx", "both_ctx"}[idx%2]}
 	}
+	return out
+}
+
+// renderTiming chooses the concrete durations: the effective deadline is nearMs when the script needs one, else far.
+func renderTiming(s script, c tcombo, nearMs int) timing {
+	tm := timing{tsrc: c.tsrc, ctxAt: c.ctxAt, ctxDl: c.ctxDl, ctxMs: -1}
+	eff := farMs
+	if s.needsDeadline() {
+		eff = nearMs
+	}
+	switch c.tsrc {
+	case "explicit":
+		tm.timeoutMs = eff
+		if c.ctxDl == "shorter" {
+			tm.timeoutMs = eff + farMs
+		}
+	case "default":
+		tm.timeoutMs = defaultTimeoutMs
+		if eff > defaultTimeoutMs-200 {
+			eff = defaultTimeoutMs - 200
+		}
+	}
+	switch c.ctxDl {
+	case "shorter":
+		tm.ctxMs = eff
+	case "longer":
+		tm.ctxMs = tm.timeoutMs + farMs
+	}
+	return tm
+}
+
+func timingsFor(s script, idx int, all bool) []timing {
+	lat := timingLattice(s)
+	near := 250 + (idx*37)%151
 	if all && s.needsDeadline() {
-		return allTkinds
+		var out []timing
+		for _, c := range lat {
+			out = append(out, renderTiming(s, c, near))
+		}
+		return out
 	}
-	return []string{allTkinds[idx%4]}
+	return []timing{renderTiming(s, lat[idx%len(lat)], near)}
 }
 
 func renderScript(scr M, idx int, thorough bool) []M {
@@ -138,10 +205,10 @@ func renderScript(scr M, idx int, thorough bool) []M {
 		variants = []int{0, 1, 3, 6}
 	}
 	for _, mode := range modes {
-		for _, tk := range tkindsFor(s, idx, thorough) {
+		for _, tm := range timingsFor(s, idx, thorough) {
 			for _, v := range variants {
-				r := render{mode: mode, tkind: tk, ctxAt: []string{"op", "rt"}[(idx/4)%2], fileLen: []int{700, 700},
-					chunk: []int{4096, 64}[(idx/2)%2], unit: 8, rchunk: 4096, nearMs: 150 + (idx*37)%151}
+				r := render{mode: mode, tm: tm, fileLen: []int{700, 700},
+					chunk: []int{4096, 64}[(idx/2)%2], unit: 8, rchunk: 4096}
 				r.srcOff = []int{srcOffBytes(s.Src[0].Off, 700, v), srcOffBytes(s.Src[1].Off, 700, v+1)}
 				r.srvOff = srvOffBytes(s.SrvAt, s.SrvK, r.unit, idx, fileData(9, respUnits*r.unit))
 				out = append(out, descriptor(scr, r))
@@ -217,9 +284,9 @@ func randomScript(rng *rand.Rand) M {
 
 func randomRender(scr M, rng *rand.Rand) M {
 	s := scriptOf(scr)
-	r := render{mode: []string{"rt", "wire"}[rng.Intn(2)], ctxAt: []string{"op", "rt"}[rng.Intn(2)],
-		ctype: rng.Intn(4) == 0, twoName: rng.Intn(3) == 0, nearMs: 150 + rng.Intn(151)}
-	r.tkind = tkindsFor(s, rng.Intn(4), false)[0]
+	r := render{mode: []string{"rt", "wire"}[rng.Intn(2)], ctype: rng.Intn(4) == 0, twoName: rng.Intn(3) == 0}
+	lat := timingLattice(s)
+	r.tm = renderTiming(s, lat[rng.Intn(len(lat))], 250+rng.Intn(151))
 	r.chunk = []int{1, 7, 512, 4096, 100000}[rng.Intn(5)]
 	maxLen := 70000
 	if r.chunk < 512 {
@@ -304,13 +371,39 @@ func generate(c *drv.Ctx) {
 				}{{"buffer", 0, 0}, {"mp", 1, 1}, {"reader", 0, 0}}[(off+ki)%3]
 				scr := baseScript(pay.p, pay.f, pay.n, (off+ki)%2 == 0, "none", []string{"all", "p1"}[(off/2)%2], "none")
 				scr["srv"] = M{"kind": kind, "at": at, "k": k}
-				r := render{mode: "wire", tkind: allTkinds[(off+ki)%4], ctxAt: []string{"op", "rt"}[off%2], fileLen: []int{700, 700},
-					srcOff: []int{0, 0}, chunk: 4096, unit: unit, rchunk: 4096, nearMs: 150, srvOff: off}
+				s := scriptOf(drv.Norm(scr))
+				lat := timingLattice(s)
+				r := render{mode: "wire", tm: renderTiming(s, lat[(off+ki)%len(lat)], 250), fileLen: []int{700, 700},
+					srcOff: []int{0, 0}, chunk: 4096, unit: unit, rchunk: 4096, srvOff: off}
 				descs = append(descs, descriptor(scr, r))
 				n++
 			}
 		}
 		c.Extra["wire_offsets"] = n
+	}
+
+	// (2b) the whole deadline-selection lattice (timeout source x context placement x context deadline) x stall placement
+	{
+		unit := 8
+		body := fileData(9, respUnits*unit)
+		n := 0
+		for _, pl := range []struct {
+			at string
+			k  int
+		}{{"status", 0}, {"headers", 0}, {"body", 0}, {"body", 1}} {
+			for _, mode := range []string{"rt", "wire"} {
+				scr := baseScript("buffer", 0, 0, n%2 == 0, "none", "all", "none")
+				scr["srv"] = M{"kind": "stall", "at": pl.at, "k": pl.k}
+				s := scriptOf(drv.Norm(scr))
+				for ci, cb := range timingLattice(s) {
+					r := render{mode: mode, tm: renderTiming(s, cb, 250+(ci*53)%151), fileLen: []int{700, 700}, srcOff: []int{0, 0},
+						chunk: 4096, unit: unit, rchunk: 4096, srvOff: srvOffBytes(pl.at, pl.k, unit, ci, body)}
+					descs = append(descs, descriptor(scr, r))
+					n++
+				}
+			}
+		}
+		c.Extra["deadline_lattice"] = n
 	}
 
 	// (3) seeded random scripts (up to two faults) with random concrete renderings
